@@ -102,7 +102,8 @@ def is_unextendible_product_basis(vecs: list[np.ndarray], dims: list[int]) -> tu
                 # For the i-th party, acquire the matrix.
                 mat = np.stack([np.asarray(vecs_split[col][i]).reshape(-1) for col in part_ordered[i]])
                 # Find the basis of the null space.
-                null_basis = null_space(mat)
+                # (w is orthogonal to v when <v|w> = conj(v) . w = 0, hence the conjugate.)
+                null_basis = null_space(mat.conj())
                 # If null space is empty then break.
                 if null_basis.shape[1] == 0:
                     witness_found = False
